@@ -45,6 +45,13 @@ Add(left, right) == LET l == N(left) r == N(right) IN [t \in Types(l, r) |-> SAd
 
 \* "Subtract resource returning a new resource ... This might return negative values"
 Sub(left, right) == LET l == N(left) r == N(right) IN [t \in Types(l, r) |-> SSub(Get(l, t), Get(r, t))]
+\* AddTo / SubFrom update the receiver in place (the running totals of partition, nodes, trackers are kept with them):
+\* "A nil base resource does not change. A nil passed in resource is treated as a zero valued resource and leaves base unchanged"
+\* only the types of the argument are touched, with the same saturating arithmetic as Add / Sub
+AddTo(r, add) == IF r = Nil THEN Nil ELSE IF add = Nil THEN r
+                 ELSE [t \in Types(r, add) |-> IF t \in DOMAIN add THEN SAdd(Get(r, t), add[t]) ELSE r[t]]
+SubFrom(r, sub) == IF r = Nil THEN Nil ELSE IF sub = Nil THEN r
+                   ELSE [t \in Types(r, sub) |-> IF t \in DOMAIN sub THEN SSub(Get(r, t), sub[t]) ELSE r[t]]
 
 \* "subtracts delta from base resource, ignoring any type not defined in the base resource" (nil base: undocumented)
 SubOnlyExisting(base, delta) ==
